@@ -15,7 +15,7 @@ PROPERTIES = {
         'level_note': _STORE_NOTE,
     },
     'C08': {
-        'modules': ['harness.c07_store'],
+        'modules': ['harness.c07_store', 'harness.c02_tokens'],
         'budget': {'quick': 900, 'thorough': 3000},
         'level_text': 'Same inductive-step cells with symbolic token extents (unbounded non-negative line/column integers, newline-bearing '
                       'tokens at symbolic places) and raw_text updates with symbolic Unicode texts; get_position/get_index are compared '
@@ -86,6 +86,36 @@ PROPERTIES['C17'] = {
     'modules': ['harness.c17_spacing'], 'budget': {'quick': 900, 'thorough': 3300},
     'level_text': _DOC_TEXT % 'an index walk over a snapshot of the token list for the getter; character-level and identity-level comparison of the document for the setter',
     'level_note': 'Six templates (blank / whitespace-only lines, CRLF, trailing blanks, missing final newline, nested postings and meta); spacing strings of <= 3 units from {SP, TAB, LF, CRLF}; every model and token of the template. Trusted: CrossHair path exhaustion over the selectors.',
+}
+
+PROPERTIES['C02'] = {
+    'modules': ['harness.c02_tokens'], 'budget': {'quick': 900, 'thorough': 3300},
+    'level_text': 'Bounded symbolic checking of token assignments inside parsed multi-block documents: token ordinal and assignment kind are '
+                  'symbolic, the new text contains 2 symbolic Unicode code points kept inside the type\'s lexical domain by its own terminal '
+                  'regex; the printed text must equal the input with exactly that span replaced and all other tokens keep identity, order and text.',
+    'level_note': 'Five documents (<= 60 tokens, load factor 4), replacement = frame + 2 code points, <= 2 assignments. Trusted: CrossHair, z3, symre.',
+}
+
+_SEL_NOTE = ('Finite configuration space enumerated exhaustively through the solver (CrossHair path tree exhausted over the symbolic '
+             'selectors); each configuration runs the real code natively. Four documents covering every directive class; one edit / '
+             'perturbation (two non-editing operations in thorough). Other documents and longer sequences are outside the claim.')
+PROPERTIES['C11'] = {
+    'modules': ['harness.tree_props'], 'budget': {'quick': 1200, 'thorough': 3300},
+    'level_text': 'Solver-enumerated configurations (attribution mode x every tree model at any depth x one edit on either side): the deep copy must be equal, '
+                  'print the spanned text, share no token, be a complete tree in its own store, and neither side may be affected by an edit of the other.',
+    'level_note': _SEL_NOTE,
+}
+PROPERTIES['C20'] = {
+    'modules': ['harness.tree_props'], 'budget': {'quick': 1200, 'thorough': 3300},
+    'level_text': 'Solver-enumerated pairs: same text parsed twice, copy vs original, and copy perturbed by exactly one token text / child / comment '
+                  'ownership change at a symbolic place: equal exactly when unperturbed, symmetric, hash-consistent for tokens.',
+    'level_note': _SEL_NOTE,
+}
+PROPERTIES['C04'] = {
+    'modules': ['harness.tree_props', 'harness.view_ops'], 'budget': {'quick': 1200, 'thorough': 3300},
+    'level_text': 'Solver-enumerated sequences of non-editing operations (attribute reads found by introspection, views, ==, hash, deepcopy, print, '
+                  'claim/unclaim/auto-claim) on every model of each document: printed text and the identity/order/text of visible tokens must not change.',
+    'level_note': _SEL_NOTE,
 }
 
 NOT_APPLICABLE = {
